@@ -21,7 +21,7 @@ Lemma ondone_q_map l : ondone_q (map HCb l) = ondone_cbs l.
 Proof. induction l as [|c l IH]; cbn; [reflexivity|]. unfold ondone_q, ondone_cbs in IH. rewrite IH. now destruct c. Qed.
 
 Record Ord (g : tg) : Prop := {
-  o_order : consumed g ++ doneq g ++ ondone_q (queue g) = log_done g;
+  o_order : app_consumed g ++ consumed g ++ doneq g ++ ondone_q (queue g) = log_done g;
   o_nodup : NoDup (log_done g);
   o_log : forall t, In t (log_done g) <->
                     exists m, get t (members g) = Some m /\ m_daemon m = false /\ is_fin m = true;
@@ -29,7 +29,8 @@ Record Ord (g : tg) : Prop := {
                       ondone_cbs (m_cbs m) = if m_daemon m then [] else [t] }.
 
 Lemma ord_same g g' : Ord g -> members g' = members g -> log_done g' = log_done g ->
-  consumed g' ++ doneq g' ++ ondone_q (queue g') = consumed g ++ doneq g ++ ondone_q (queue g) -> Ord g'.
+  app_consumed g' ++ consumed g' ++ doneq g' ++ ondone_q (queue g') =
+  app_consumed g ++ consumed g ++ doneq g ++ ondone_q (queue g) -> Ord g'.
 Proof.
   intros [O1 O2 O3 O4] Hm Hl Ho. split.
   - now rewrite Ho, Hl.
@@ -85,16 +86,19 @@ Proof.
   rewrite ondone_q_app. cbn. apply app_nil_r.
 Qed.
 
+Lemma sem_release_app g : app_consumed (sem_release g) = app_consumed g.
+Proof. unfold sem_release. cbn. destruct (pc g), (wake g); reflexivity. Qed.
+
 Lemma on_done_ord g t rest : Ord g -> queue g = HCb (OnDone t) :: rest -> Ord (on_done (upd_queue g rest) t).
 Proof.
   intros [O1 O2 O3 O4] Hq.
   assert (Hin : In t (log_done g)).
-  { rewrite <- O1, Hq. apply in_or_app. right. apply in_or_app. right. cbn. now left. }
+  { rewrite <- O1, Hq. apply in_or_app. right. apply in_or_app. right. apply in_or_app. right. cbn. now left. }
   apply O3 in Hin as (m & Em & Hd & Hf).
   unfold on_done. cbn [members upd_queue]. rewrite Em, Hd.
-  match goal with |- Ord (sem_release ?G) => destruct (sem_release_ord G) as (S1 & S2 & S3 & S4 & S5) end.
+  match goal with |- Ord (sem_release ?G) => destruct (sem_release_ord G) as (S1 & S2 & S3 & S4 & S5); pose proof (sem_release_app G) as S6 end.
   split.
-  - rewrite S3, S4, S5, S2. cbn. rewrite <- O1, Hq. cbn. now rewrite <- !app_assoc.
+  - rewrite S6, S3, S4, S5, S2. cbn. rewrite <- O1, Hq. cbn. now rewrite <- !app_assoc.
   - rewrite S2. exact O2.
   - intros t0. rewrite S2, S1. apply O3.
   - intros t0 m0. rewrite S1. apply O4.
@@ -118,7 +122,8 @@ Proof.
                semv := semv g2; joined := joined g2; completed := completed g2; pol := pol g2;
                mode := mode g2; pc := pc g2; entered := entered g2; granted := granted g2; wake := wake g2;
                must_cancel := must_cancel g2; jexc := jexc g2; unfinished := unfinished g2;
-               queue := queue g2; log_done := log_done g2 ++ [t]; consumed := consumed g2 |})).
+               queue := queue g2; log_done := log_done g2 ++ [t]; consumed := consumed g2;
+               app_consumed := app_consumed g2 |})).
   { destruct (m_daemon m) eqn:Ed; split; cbn.
     - rewrite ondone_q_app, ondone_q_map, Hcbs, app_nil_r. exact O1.
     - exact O2.
@@ -174,7 +179,7 @@ Qed.
 
 Lemma step_ord g l : fresh_label l = true -> Ord g -> Ord (step g l).
 Proof.
-  intros Hl H. destruct l as [t d al|t o|t| | |h order]; cbn [step].
+  intros Hl H. destruct l as [t d al|t o|t| | |h order|]; cbn [step].
   - destruct al; [discriminate|]. apply add_task_ord; exact H.
   - apply finish_member_ord; exact H.
   - apply cancel_member_ord; exact H.
@@ -189,6 +194,8 @@ Proof.
       repeat match goal with |- context [match ?x with _ => _ end] => destruct x end;
         apply (ord_same (upd_queue g rest)); auto; cbn; rewrite ?ondone_q_app; cbn; now rewrite ?app_nil_r.
     + apply joiner_step_ord. apply (ord_same g); auto. cbn. now rewrite Eq.
+  - destruct (app_next_cases g) as [->|(t & rest & sv & _ & Ec & Ed & _ & ->)]; [exact H|].
+    destruct H as [O1 O2 O3 O4]. split; cbn; auto. rewrite <- O1, Ec, Ed. cbn. now rewrite <- app_assoc.
 Qed.
 
 Theorem reachable_ord p m ls : forallb fresh_label ls = true -> Ord (run p m ls).
@@ -201,7 +208,7 @@ Qed.
 
 (* ---------- exactly once, for EVERY label sequence: also tasks that had already finished when they
    were added (constructor, add_task), which enter _done at the instant of the addition ---------- *)
-Definition yielded (g : tg) : list N := consumed g ++ doneq g ++ ondone_q (queue g).
+Definition yielded (g : tg) : list N := app_consumed g ++ consumed g ++ doneq g ++ ondone_q (queue g).
 Definition fin_member (g : tg) (t : N) : Prop :=
   exists m, get t (members g) = Some m /\ m_daemon m = false /\ is_fin m = true.
 
@@ -259,14 +266,14 @@ Qed.
 
 Lemma sem_release_yielded g : members (sem_release g) = members g /\ yielded (sem_release g) = yielded g.
 Proof.
-  destruct (sem_release_ord g) as (S1 & _ & S3 & S4 & S5). split; [exact S1|]. unfold yielded. now rewrite S3, S4, S5.
+  destruct (sem_release_ord g) as (S1 & _ & S3 & S4 & S5). split; [exact S1|]. unfold yielded. now rewrite sem_release_app, S3, S4, S5.
 Qed.
 
 Lemma on_done_once g t rest : Once g -> queue g = HCb (OnDone t) :: rest -> Once (on_done (upd_queue g rest) t).
 Proof.
   intros H Hq. pose proof H as [O1 O2 O3].
   assert (Hin : In t (yielded g)).
-  { unfold yielded. rewrite Hq. apply in_or_app. right. apply in_or_app. right. cbn. now left. }
+  { unfold yielded. rewrite Hq. apply in_or_app. right. apply in_or_app. right. apply in_or_app. right. cbn. now left. }
   apply O2 in Hin as (m & Em & Hd & Hf).
   unfold on_done. cbn [members upd_queue]. rewrite Em, Hd.
   match goal with |- Once (sem_release ?G) => destruct (sem_release_yielded G) as (S1 & S2) end.
@@ -291,7 +298,8 @@ Proof.
                semv := semv g2; joined := joined g2; completed := completed g2; pol := pol g2;
                mode := mode g2; pc := pc g2; entered := entered g2; granted := granted g2; wake := wake g2;
                must_cancel := must_cancel g2; jexc := jexc g2; unfinished := unfinished g2;
-               queue := queue g2; log_done := log_done g2 ++ [t]; consumed := consumed g2 |})).
+               queue := queue g2; log_done := log_done g2 ++ [t]; consumed := consumed g2;
+               app_consumed := app_consumed g2 |})).
   { destruct (m_daemon m) eqn:Ed; split; unfold yielded, fin_member; cbn.
     - rewrite ondone_q_app, ondone_q_map, Hcbs, app_nil_r. exact O1.
     - intros t0. rewrite ondone_q_app, ondone_q_map, Hcbs, app_nil_r. fold (yielded g). rewrite O2, Hget.
@@ -341,12 +349,13 @@ Proof.
         intros E F. injection E as <-. discriminate.
     + match goal with |- Once (sem_release ?G) => destruct (sem_release_yielded G) as (S1 & S2) end.
       split.
-      * rewrite S2. unfold yielded. cbn. now apply nodup_insert.
+      * rewrite S2. unfold yielded. cbn. rewrite !(app_assoc (app_consumed g)).
+        apply nodup_insert; rewrite <- !app_assoc; [exact O1|exact Hnot].
       * intros t0. rewrite S2. unfold fin_member. rewrite S1. unfold yielded. cbn.
         rewrite Hget. rewrite !in_app_iff. cbn. destruct (N.eqb_spec t t0) as [<-|Hne].
-        -- split; [intros _; eexists; split; [reflexivity|auto]|intros _; right; left; right; now left].
+        -- split; [intros _; eexists; split; [reflexivity|auto]|intros _; right; right; left; right; now left].
         -- pose proof (O2 t0) as Ht0. unfold yielded, fin_member in Ht0. rewrite !in_app_iff in Ht0. rewrite <- Ht0.
-           split; [intros [Hc|[[Hc|[Hc|[]]]|Hc]]; auto; contradiction|intros [Hc|[Hc|Hc]]; auto].
+           split; [intros [Hc|[Hc|[[Hc|[Hc|[]]]|Hc]]]; auto; contradiction|intros [Hc|[Hc|[Hc|Hc]]]; auto].
       * intros t0 m1. rewrite S1. cbn. rewrite Hget. destruct (N.eqb_spec t t0) as [<-|Hne]; [|apply O3].
         intros E F. injection E as <-. discriminate.
   - destruct d; cbn [fst]; split; unfold yielded, fin_member; cbn; auto.
@@ -378,7 +387,7 @@ Qed.
 
 Lemma step_once g l : Once g -> Once (step g l).
 Proof.
-  intros H. destruct l as [t d al|t o|t| | |h order]; cbn [step].
+  intros H. destruct l as [t d al|t o|t| | |h order|]; cbn [step].
   - apply add_task_once; exact H.
   - apply finish_member_once; exact H.
   - apply cancel_member_once; exact H.
@@ -393,6 +402,8 @@ Proof.
       repeat match goal with |- context [match ?x with _ => _ end] => destruct x end;
         apply (once_same (upd_queue g rest)); auto; unfold yielded; cbn; rewrite ?ondone_q_app; cbn; now rewrite ?app_nil_r.
     + apply joiner_step_once. apply (once_same g); auto. unfold yielded. cbn. now rewrite Eq.
+  - destruct (app_next_cases g) as [->|(t & rest & sv & _ & Ec & Ed & _ & ->)]; [exact H|].
+    apply (once_same g); auto. unfold yielded. cbn. rewrite Ec, Ed. cbn. now rewrite <- app_assoc.
 Qed.
 
 (* every non-daemon member that has finished is yielded exactly once - whatever the labels *)
@@ -460,7 +471,7 @@ Lemma step_frame g l :
   pol (step g l) = pol g /\ MemStable g (step g l) /\
   (joiner_runs g l = false -> completed (step g l) = completed g /\ consumed (step g l) = consumed g).
 Proof.
-  destruct l as [t d al|t o|t| | |h order]; cbn [step joiner_runs].
+  destruct l as [t d al|t o|t| | |h order|]; cbn [step joiner_runs].
   - unfold add_task. destruct (add_refused_after_join && joined g); [repeat split; auto; apply memstable_refl|].
     destruct (get t (members g)) as [m0|] eqn:Em; [repeat split; auto; apply memstable_refl|].
     assert (Hms : forall mm, MemStable g (upd_members g (set t mm (members g)))).
@@ -507,6 +518,8 @@ Proof.
         repeat split; auto; apply memstable_refl.
     + destruct (joiner_step_frame (upd_queue g rest) order) as [H1 H2]. split; [exact H1|]. split; [|discriminate].
       intros t Hf. apply (H2 t Hf).
+  - destruct (app_next_frame g) as (E1 & _ & _ & _ & _ & _ & E7 & E8 & E9 & _).
+    split; [exact E9|]. split; [now apply memstable_members|]. intros _. auto.
 Qed.
 
 (* ---------- completed is the first consumed member that counts ---------- *)
@@ -526,7 +539,7 @@ Qed.
 Lemma consumed_finished g : Once g -> forall t, In t (consumed g) -> finished g t = true.
 Proof.
   intros [_ O2 _] t Hin. apply finished_get.
-  assert (Hl : In t (yielded g)) by (apply in_or_app; now left).
+  assert (Hl : In t (yielded g)) by (apply in_or_app; right; apply in_or_app; now left).
   apply O2 in Hl as (m & E & _ & F). eauto.
 Qed.
 
@@ -560,7 +573,7 @@ Qed.
 Lemma step_cf g l : Once g -> CF g -> CF (step g l).
 Proof.
   intros Ho Hc. destruct (joiner_runs g l) eqn:Ej.
-  - destruct l as [| | | | |h order]; try discriminate. cbn in Ej. cbn [step].
+  - destruct l as [| | | | |h order|]; try discriminate. cbn in Ej. cbn [step].
     destruct (queue g) as [|[c|] rest] eqn:Eq; try discriminate. cbv zeta.
     apply joiner_step_cf; [apply (once_same g); auto; unfold yielded; cbn; now rewrite Eq|exact Hc].
   - destruct (step_frame g l) as (H1 & H2 & H3). destruct (H3 Ej) as [E1 E2]. apply (cf_stable g); auto.
